@@ -23,6 +23,8 @@
 (*   Cfb::new      -> New(f, g)                                            *)
 (*   get_stream    -> GetStream(f, g, c, name)                             *)
 (*   get_chain     -> Chain(...) + truncation                              *)
+(* (TLCEval only forces eager evaluation of LET values; TLC would otherwise *)
+(* re-evaluate them at every use, which is quadratic on real-size files.)   *)
 (* Data bytes are abstracted to block descriptors [o, i] ("the i-th block  *)
 (* of stream o") plus an exact byte length, so "byte-exact" reads as       *)
 (* "blocks <<[s,0],[s,1],...>> and length len(s)".                         *)
@@ -30,7 +32,7 @@
 (* beyond the file, chains running into foreign sectors) is reported as an *)
 (* `err` string; it is never reached from the writer of MC_Cfb.            *)
 (***************************************************************************)
-EXTENDS Naturals, Sequences, FiniteSets, TLC
+EXTENDS Naturals, Sequences, FiniteSets, TLC, SequencesExt
 
 \* special words; real value = 0xFFFFFF00 + (m - 1000000)
 RESERVED == 1000250     \* 0xFFFFFFFA  RESERVED_SECTORS
@@ -51,13 +53,20 @@ Words(f, id) == f.sec[id + 1].w
 (* Sectors::get_chain, the walk: ids visited from `start` following `fats` *)
 (* (`limit` = number of sectors that exist).  while sector_id != ENDOFCHAIN *)
 (*   { chain.extend(get(sector_id)); sector_id = fats[sector_id] }          *)
-RECURSIVE Chain(_, _, _, _, _)
+\* (a left fold over 1..fuel rather than a recursive operator: TLC's cost of a recursive call
+\*  grows with the recursion depth, which is quadratic on real-size chains)
+ChainStep(st, fats, limit) ==
+  IF st.err # "" \/ st.cur = ENDCH THEN st
+  ELSE IF st.cur >= limit THEN [st EXCEPT !.err = "bad-sector-id"]
+  ELSE IF st.cur + 1 > Len(fats) THEN [st EXCEPT !.err = "panic:fat-index"]
+  ELSE [cur |-> fats[st.cur + 1], ids |-> Append(st.ids, st.cur), err |-> ""]
+
 Chain(start, fats, limit, acc, fuel) ==
-  IF start = ENDCH THEN [err |-> "", ids |-> acc]
-  ELSE IF fuel = 0 THEN [err |-> "hang:cycle", ids |-> acc]
-  ELSE IF start >= limit THEN [err |-> "bad-sector-id", ids |-> acc]
-  ELSE IF start + 1 > Len(fats) THEN [err |-> "panic:fat-index", ids |-> acc]
-  ELSE Chain(fats[start + 1], fats, limit, Append(acc, start), fuel - 1)
+  LET r == FoldLeft(LAMBDA st, i : ChainStep(st, fats, limit),
+                    [cur |-> start, ids |-> acc, err |-> ""], [i \in 1..fuel |-> i])
+  IN IF r.err # "" THEN [err |-> r.err, ids |-> r.ids]
+     ELSE IF r.cur # ENDCH THEN [err |-> "hang:cycle", ids |-> r.ids]
+     ELSE [err |-> "", ids |-> r.ids]
 
 \* bytes returned by get_chain(start, fats, r, len): n whole sectors, truncated iff len > 0
 ChainLen(n, size, len) == IF len > 0 THEN MinN(len, n * size) ELSE n * size
@@ -95,28 +104,28 @@ RootRule(ver, dirs) == dirs = <<>>
 NewWith(f, g, Root(_, _)) ==
   LET h  == f.hdr
       fu == NSec(f) + 2
-      dl == DifatLoop(f, h.difat, h.difatStart, fu)
+      dl == TLCEval(DifatLoop(f, h.difat, h.difatStart, fu))
   IN IF dl.err # "" THEN [err |-> dl.err]
      ELSE
-     LET fatIds == SelectSeq(dl.difat, LAMBDA x : x < DIFSECT)
+     LET fatIds == TLCEval(SelectSeq(dl.difat, LAMBDA x : x < DIFSECT))
      IN IF ~AllWords(f, fatIds) THEN [err |-> "fat-sector-not-words"]
         ELSE
-        LET fats == FlatWords(f, fatIds, 1)
-            dc   == Chain(h.dirStart, fats, NSec(f), <<>>, fu)
+        LET fats == TLCEval(FlatWords(f, fatIds, 1))
+            dc   == TLCEval(Chain(h.dirStart, fats, NSec(f), <<>>, fu))
         IN IF dc.err # "" THEN [err |-> dc.err]
            ELSE IF ~AllDirs(f, dc.ids) THEN [err |-> "dir-chain-not-dir"]
            ELSE
-           LET all  == FlatDirs(f, dc.ids, 1)
+           LET all  == TLCEval(FlatDirs(f, dc.ids, 1))
                \* get_chain(.., h.dir_len * h.sector_size) then chunks(128)
-               dirs == IF h.dirLen > 0 THEN SubSeq(all, 1, MinN(Len(all), h.dirLen * g.dps)) ELSE all
+               dirs == TLCEval(IF h.dirLen > 0 THEN SubSeq(all, 1, MinN(Len(all), h.dirLen * g.dps)) ELSE all)
            IN IF Root(f.ver, dirs) THEN [err |-> "EmptyRootDir"]
               ELSE IF h.miniFatLen > 0
-              THEN LET ms == Chain(dirs[1].start, fats, NSec(f), <<>>, fu)
-                       mf == Chain(h.miniFatStart, fats, NSec(f), <<>>, fu)
+              THEN LET ms == TLCEval(Chain(dirs[1].start, fats, NSec(f), <<>>, fu))
+                       mf == TLCEval(Chain(h.miniFatStart, fats, NSec(f), <<>>, fu))
                    IN IF ms.err # "" THEN [err |-> ms.err]
                       ELSE IF mf.err # "" THEN [err |-> mf.err]
                       ELSE IF ~AllWords(f, mf.ids) THEN [err |-> "minifat-not-words"]
-                      ELSE LET mw == FlatWords(f, mf.ids, 1)
+                      ELSE LET mw == TLCEval(FlatWords(f, mf.ids, 1))
                            IN [err |-> "", dirs |-> dirs, fats |-> fats,
                                msIds |-> ms.ids,
                                msLen |-> ChainLen(Len(ms.ids), g.ssz, dirs[1].len),
@@ -140,11 +149,11 @@ GetStream(f, g, c, name) ==
      IN IF d.len < g.cut
         THEN \* mini_sectors = Sectors::new(64, ministream): a slot exists iff it lies inside the
              \* (truncated) mini stream; beyond it the code would read on from the file reader
-             LET w == Chain(d.start, c.miniFats, c.msLen \div g.msz, <<>>, Len(c.miniFats) + 2)
+             LET w == TLCEval(Chain(d.start, c.miniFats, c.msLen \div g.msz, <<>>, Len(c.miniFats) + 2))
              IN IF w.err # "" THEN [err |-> "mini:" \o w.err]
                 ELSE [err |-> "", mini |-> TRUE, ids |-> w.ids,
                       len |-> ChainLen(Len(w.ids), g.msz, d.len)]
-        ELSE LET w == Chain(d.start, c.fats, NSec(f), <<>>, NSec(f) + 2)
+        ELSE LET w == TLCEval(Chain(d.start, c.fats, NSec(f), <<>>, NSec(f) + 2))
              IN IF w.err # "" THEN [err |-> w.err]
                 ELSE [err |-> "", mini |-> FALSE, ids |-> w.ids,
                       len |-> ChainLen(Len(w.ids), g.ssz, d.len)]
@@ -169,9 +178,9 @@ Blocks(f, g, c, r) ==
 
 \* result of open + get_stream(name) as seen by the caller
 ReadWith(f, g, name, Root(_, _)) ==
-  LET c == NewWith(f, g, Root)
+  LET c == TLCEval(NewWith(f, g, Root))
   IN IF c.err # "" THEN [err |-> c.err]
-     ELSE LET r == GetStream(f, g, c, name)
+     ELSE LET r == TLCEval(GetStream(f, g, c, name))
           IN IF r.err # "" THEN [err |-> r.err]
              ELSE [err |-> "", len |-> r.len, blocks |-> Blocks(f, g, c, r)]
 Read(f, g, name) == ReadWith(f, g, name, RootRule)
